@@ -48,6 +48,12 @@ class World:
             s.update(x for x in util.reach(i, util.spec_bases)[1] if isinstance(x, InterfaceClass))
         return s
 
+    def _reaches(self, spec, cls):
+        """Does the class specification *spec* (transitively, through specifications declared on classes) lead to
+        the specification of *cls*?  Used to keep generated class declarations acyclic."""
+        target = implementedBy(cls)
+        return spec is target or id(target) in util.reach(spec, util.spec_bases)[0]
+
     @staticmethod
     def flat(lst):
         """What ``directlyProvidedBy(ob) - I`` keeps of a declared class specification: its interfaces, one by one
@@ -91,8 +97,17 @@ class World:
         U = self.cbound(c, 'U')
         amb = [i for i in ifs if i in U and i not in L]
         act = self.actual_c(c) if amb else None
+        cspec = implementedBy(c) if any(not isinstance(i, InterfaceClass) for i in ifs) else None
         for i in ifs:
             self.Y.setdefault(id(c), []).append(i)
+            if not isinstance(i, InterfaceClass):
+                # a class specification as a whole: redundant iff the class's specification already reaches it
+                # (read from the specification graph, which the bounds checks of the classes keep validated)
+                if not reset and (i is cspec or id(i) in util.reach(cspec, util.spec_bases)[0]):
+                    continue
+                self.M.setdefault(id(c), []).append(i)
+                L = L | self.closure([i])
+                continue
             if i in L:
                 continue
             if i not in U or i not in act:
@@ -110,7 +125,13 @@ class World:
         amb = [i for i in cand if i in U and i not in L]
         act = self.actual_c(c) if amb else None
         M = []
+        cspec = implementedBy(c) if any(not isinstance(i, InterfaceClass) for i in cand) else None
         for i in cand:
+            if not isinstance(i, InterfaceClass):
+                if i is cspec or id(i) in util.reach(cspec, util.spec_bases)[0]:
+                    continue        # the class's own specification reaches it: stripped as redundant
+                M.append(i)
+                continue
             if i in L:
                 continue
             if i not in U or i not in act:
@@ -283,6 +304,15 @@ class World:
             return
         o = rng.choice(self.objs)
         ifs = self.pick()
+        if op in ('ci', 'cio', 'deco') and rng.random() < 0.12:
+            # ... and among the interfaces declared for a class (of an unrelated class: neither an ancestor nor a
+            # descendant, which would make the specification graph cyclic)
+            others = [k for k in self.classes if k not in c.__mro__ and c not in k.__mro__
+                      and not self._reaches(implementedBy(k), c) and not self._reaches(implementedBy(c), k)]
+            if others:
+                ifs = list(ifs)
+                ifs.insert(rng.randint(0, len(ifs)), implementedBy(rng.choice(others)))
+                ctx.count('class_declarations_with_class_specification')
         if op in ('dp', 'ap') and rng.random() < 0.2:
             # a class's implementation specification among the directly declared "interfaces" (of a class that is
             # not in the object's MRO, so that it cannot be redundant as a whole)
